@@ -6,7 +6,7 @@ import ast
 
 from .. import astutil as A
 from .. import q
-from ..idioms import cname, sentinel_lookup, where
+from ..idioms import cname, prev_siblings, sentinel_lookup, where
 from ..re_model import BCLS, BMOD, CLS, MOD, REModel
 from ..run_tail import RunTail
 
@@ -124,9 +124,10 @@ def bundler_lookups(rm: REModel):
         if "self._run_bundlers" not in txt:
             continue
         found = None
+        prevs = prev_siblings(h.node)
         for s in A.walk_stmts(h.node.body):
             if isinstance(s, ast.If):
-                sl = sentinel_lookup(s.test)
+                sl = sentinel_lookup(s.test, prevs.get(s))
                 if sl and sl[1] == "self._run_bundlers":
                     found = ("sentinel", s, sl)
                     break
